@@ -12,7 +12,8 @@ From RU Require Import Base.Prelude Base.Utf8 Base.Utf8Facts Model.AsciiSet Gen.
   Proofs.C05_ParseUI Proofs.C05_ParseAll Proofs.C05_CompSteps2 Proofs.C05_CompReach Proofs.C05_ParseEx
   Proofs.C03_WF Proofs.C06_Suffix Proofs.C05_BaseOk Proofs.C05_CompSteps3 Proofs.C05_FinEx Proofs.C05_Alphabet
   Proofs.C05_AuthOfs Proofs.C05_AuthParse Proofs.C05_HostText Proofs.C15_Ser Proofs.C05_Qpm Proofs.C05_ReachF Proofs.C05_FinEx2
-  Proofs.C05_HostClause.
+  Proofs.C05_HostClause Proofs.C05_HostParse Proofs.C05_HostInst.
+From RU Require Import Model.Host Proofs.C09_Host.
 From RU Require Import Model.FormUrlencoded Model.QueryPairs.
 
 (* ================= 1. encoder alphabet ================= *)
@@ -678,16 +679,37 @@ Print Assumptions C05_reachable_in_Q.
 Example C05_reachF_inhabited : finF_example_stmt.
 Proof. exact finF_example. Qed.
 
-(* ================= 6. the host clause (last sentence of the property text) along mutator histories ================= *)
+(* ================= 6. the host clause (last sentence of the property text) ================= *)
+(* where the host text of a parse result comes from (Proofs/C05_HostParse.v), every parser arm, any input numbers:
+   HostRes base u := hosti u = HI_None
+                  \/ the stored host text ht u is the Display of a non-empty host that the host parser of the scheme
+                     class of u returned (hp = Host::parse for special schemes, hpo = Host::parse_opaque otherwise)
+                  \/ the base has a host, ht u = ht b and u has the scheme class of b.
+   Base: well formed, host_text_ok, bk. *)
+Theorem C05_parse_host_origin : forall dbg hp hpo hd ovr base input u, HostWf hp hpo hd ->
+  match base with Some b => wf_b b = true /\ C06_Suffix.host_text_ok b /\ bk b | None => True end ->
+  parse_url dbg hp hpo hd ovr base input = POk u -> HostRes hp hpo hd base u.
+Proof. intros dbg hp hpo hd ovr base input u HW. exact (parse_url_host dbg hp hpo hd ovr HW base input u). Qed.
+Check C05_parse_host_origin : forall dbg hp hpo hd ovr base input u, HostWf hp hpo hd ->
+  match base with Some b => wf_b b = true /\ C06_Suffix.host_text_ok b /\ bk b | None => True end ->
+  parse_url dbg hp hpo hd ovr base input = POk u -> HostRes hp hpo hd base u.
+Print Assumptions C05_parse_host_origin.
+
 (* HostSpQ hp hd Q (Proofs/C05_HostClause.v): every host other than the empty one that hp (Host::parse, the parser of
    special schemes) returns, and every address value, is displayed as a text that satisfies Q.
    HC Q u: if the scheme of u is special, what Url::host_str() returns satisfies Q.
-   GHistF: histories of step_gate3 steps of the 19 mutators and query_pairs_mut sessions.
-   For Q := "lower-case ASCII without forbidden host code points" HostSpQ is C09_domain (domains, relative to IdnaOK)
-   plus the address printers (digits, '.', lower-case hex digits, ':', '[', ']').
-   Proved: HC is an invariant of such histories - a special URL never gets its host from Host::parse_opaque, and the
-   scheme class only goes from special to special.  GAP: the start record - HC for parse / join results is not proved
-   here (it needs the position of the host text in the result of every parser arm). *)
+   For EVERY record of CReachF (parse, join, gated steps of the 19 mutators, query_pairs_mut sessions): a special URL
+   never gets its host from Host::parse_opaque, and the scheme class only goes from special to special. *)
+Theorem C05_host_clause_reachF : forall dbg hp hpo hd Q u,
+  HostSpQ hp hd Q -> HostWf hp hpo hd -> IpDisp hd -> HostOK hp hpo hd -> IpOKv hd ->
+  CReachF dbg hp hpo hd u -> HC Q u.
+Proof. intros dbg hp hpo hd Q u HQ HW HI HOK HV. exact (creachF_hc dbg hp hpo hd Q HQ HW HI HOK HV u). Qed.
+Check C05_host_clause_reachF : forall dbg hp hpo hd Q u,
+  HostSpQ hp hd Q -> HostWf hp hpo hd -> IpDisp hd -> HostOK hp hpo hd -> IpOKv hd ->
+  CReachF dbg hp hpo hd u -> HC Q u.
+Print Assumptions C05_host_clause_reachF.
+
+(* along histories of gated steps and sessions from any start record with FInv and HC (GHistF) *)
 Theorem C05_host_clause_history : forall dbg hp hpo hd Q u u',
   HostSpQ hp hd Q -> HostWf hp hpo hd -> IpDisp hd -> HostOK hp hpo hd -> IpOKv hd ->
   GHistF dbg hp hpo hd u u' -> FInv dbg u -> HC Q u -> FInv dbg u' /\ HC Q u'.
@@ -701,6 +723,32 @@ Print Assumptions C05_host_clause_history.
    "http://h.x/a?q" satisfies FInv and HC, quirks set_host "o.x:81" is a gated step, the result has host text "o.x" *)
 Example C05_host_clause_inhabited : hc_example_stmt.
 Proof. exact hc_example. Qed.
+
+(* ---- linked with the host model (Model/Host.v), premise IdnaOK only (Proofs/C05_HostInst.v).
+   host_text_clean s := s is a bracketed IPv6 literal, or every byte of s is ASCII, not an upper-case letter and not a
+   forbidden domain code point of the Standard (forbidden host code points, C0 controls, '%', DEL).
+   HostSpQ holds for the model: domains by C09's domain_form, IPv4 text is digits and dots. *)
+Theorem C05_host_model_clean : forall idna, IdnaOK idna -> HostSpQ (host_parse idna) host_display host_text_clean.
+Proof. exact model_HostSpQ. Qed.
+Check C05_host_model_clean : forall idna, IdnaOK idna -> HostSpQ (host_parse idna) host_display host_text_clean.
+Print Assumptions C05_host_model_clean.
+
+(* the property text of C05 for every record of CReachF of the linked model: the invariant (component clauses, AS, byte
+   alphabet, space-free host text), alphabet_ok, sharp, base_ok, and the host clause *)
+Theorem C05_reachF_model : forall dbg idna, IdnaOK idna -> forall u,
+  CReachF dbg (host_parse idna) host_parse_opaque host_display u ->
+  (wfh u /\ components_clean dbg u) /\ alphabet_ok u /\ sharp u /\ base_ok u = true
+  /\ (spb u = true -> forall s, host_str u = Some (Some s) -> host_text_clean s).
+Proof.
+  intros dbg idna OK u R. split; [exact (reachF_components_model idna OK dbg u R)|].
+  split; [exact (reachF_alphabet_model idna OK dbg u R)|]. split; [exact (reachF_sharp_model idna OK dbg u R)|].
+  split; [exact (proj1 (reachF_base_ok_model idna OK dbg u R)) | exact (reachF_host_clean_model idna OK dbg u R)].
+Qed.
+Check C05_reachF_model : forall dbg idna, IdnaOK idna -> forall u,
+  CReachF dbg (host_parse idna) host_parse_opaque host_display u ->
+  (wfh u /\ components_clean dbg u) /\ alphabet_ok u /\ sharp u /\ base_ok u = true
+  /\ (spb u = true -> forall s, host_str u = Some (Some s) -> host_text_clean s).
+Print Assumptions C05_reachF_model.
 
 (* ================= non-vacuity ================= *)
 Definition ex_hp (s : list N) : result host := Ok (HDomain s).
